@@ -60,9 +60,9 @@ package clusters
 //@ interface (EndpointPicker).EnableLog(p) props C05, C04
 //@   pure
 //@ interface (EndpointPicker).Pop(p) props C05, C04
-//@   modifies smap(&unbox(p, "*endpointPickStrategy").cluster.loadbalancer), cells("uint64"), popfailed, pickedtransport, pickedendpoint
+//@   modifies smap(&unbox(p, "*endpointPickStrategy").cluster.loadbalancer), cells("uint64"), popfailed, pickedtransport, pickedendpoint, pickedref
 //@   ensures (result1 == nil ==> result != nil && popfailed == old(popfailed)) && (result1 != nil ==> result == nil && popfailed == old(popfailed) + 1)
-//@   ensures result1 == nil ==> pickedtransport == result.ProxyTransport && pickedendpoint == result.Endpoint
+//@   ensures result1 == nil ==> pickedtransport == result.ProxyTransport && pickedendpoint == result.Endpoint && pickedref == result
 
 //@ interface (Manager).Get(m, name) props C10
 //@   pure
@@ -302,3 +302,16 @@ package clusters
 //@ const xtlsEmptyOrStored = x.currentSecureServingTLSConfig.v == nil || xtlsStored
 //@ const xEPC = &x.Endpoints.data
 //@ const xClusterWF = xtlsEmptyOrStored && xtlsWF && (x.featuregate in fgalive) && x.featuregate != DEFAULTFG && x.Endpoints != nil && (x.skipSyncEndpoints || x.restConfig != nil) && (forall k ref :: {smhas(xEPC, k)} smhas(xEPC, k) ==> typeis(k, "string") && typeis(smget(xEPC, k), "*clusters.EndpointInfo") && unbox(smget(xEPC, k), "*clusters.EndpointInfo") != nil && unbox(smget(xEPC, k), "*clusters.EndpointInfo").Endpoint == unbox(k, "string") && unbox(smget(xEPC, k), "*clusters.EndpointInfo").status != nil && allocated(unbox(smget(xEPC, k), "*clusters.EndpointInfo")) && allocated(unbox(smget(xEPC, k), "*clusters.EndpointInfo").status)) && (forall k1 ref, k2 ref :: {smhas(xEPC, k1), smhas(xEPC, k2)} smhas(xEPC, k1) && smhas(xEPC, k2) && k1 != k2 ==> unbox(smget(xEPC, k1), "*clusters.EndpointInfo").status != unbox(smget(xEPC, k2), "*clusters.EndpointInfo").status)
+
+// The two probe goroutines of an endpoint select on the context they were started with (the probe context, a child of the
+// endpoint's context that is cancelled when the endpoint is disabled): the ticker stops feeding and the worker stops
+// probing when THAT context is done (C03: a disabled endpoint gets no probes; C15: probing of a removed endpoint stops).
+//@ func startGatewayHealthCheck$1 props C03, C15
+//@   modifies *
+//@   ensures [stops_on_probe_ctx] selectchan(1) == doneOf(ctx) && selectedcase() == 1
+//@   loop 0: invariant [t] true
+
+//@ func startGatewayHealthCheck$2 props C03, C15
+//@   modifies *
+//@   ensures [stops_on_probe_ctx] selectchan(1) == doneOf(ctx) && selectedcase() == 1
+//@   loop 0: invariant [t] true
